@@ -473,7 +473,7 @@ func Guarded(text []byte) ([]byte, func() string) {
 }
 
 // ConcurrentReplay asks n questions first one after the other and then from eight goroutines at once (each goroutine
-// all of them, from a different starting point, four rounds) and reports every answer that differs from the one the
+// all of them, each twice in a row, four rounds - two spread out, two crowded around the same few questions) and reports every answer that differs from the one the
 // sequential pass gave: a function of its arguments gives the same answer whoever else is calling at that moment.
 // fn must be deterministic apart from what the library does and safe to call concurrently as far as the harness's own
 // data goes.
@@ -496,8 +496,14 @@ func (c *Ctx) ConcurrentReplay(sigPrefix string, n int, fn func(i int) string) {
 			defer wg.Done()
 			local := int64(0)
 			for round := 0; round < 4; round++ {
-				for j := 0; j < n; j++ {
-					i := (j*7 + k*(n/g+1) + round) % n
+				for j := 0; j < 2*n; j++ {
+					// rounds 0 and 1: every goroutine all questions, from different starting points; rounds 2 and 3: all
+					// goroutines crowd around the same few questions, each asked twice in a row (what one call leaves
+					// behind is what the next one - of this goroutine or of another - finds)
+					i := (j/2*7 + k*(n/g+1) + round) % n
+					if round >= 2 {
+						i = (j/16*3 + (j/2+k)%3) % n
+					}
 					var got string
 					func() {
 						defer func() {
